@@ -34,7 +34,7 @@ func startedSet(tr []obs.Event) []string {
 func init() {
 	register(&Prop{
 		ID:   "C14",
-		Rule: "rule sets of 2-8 observer rules (ties), 0-3 rules that set the injected stop tag at generated positions, random failing subset (a setter may also fail), both flag values, the four stop-tag methods on engine and pool (selected ones with permuted subsets); oracle = reference model with the stop-tag clause (setter completes, nothing starts after it; mix: nothing else starts if the first rule set it); when no rule sets the tag the same case is also run through the untagged twin on a fresh identical setup and both runs must satisfy the same predicate with equal started sets, error-ness and result maps. Non-trivial: a setter that is neither first nor last in the schedule, or a setter that also fails; distinct by case hash",
+		Rule: "rule sets of 2-8 observer rules (ties), 0-3 rules that set the injected stop tag at generated positions (plain store, store guarded by a generated true condition, or the condition assigned to the tag; conditions over literals, injected constants, comparisons, brackets, negated brackets and && / ||; rules that do not set the tag may carry a store guarded by a generated false condition), random failing subset (a setter may also fail), both flag values, the four stop-tag methods on engine and pool (selected ones with permuted subsets); oracle = reference model with the stop-tag clause (setter completes, nothing starts after it; mix: nothing else starts if the first rule set it); when no rule sets the tag the same case is also run through the untagged twin on a fresh identical setup and both runs must satisfy the same predicate with equal started sets, error-ness and result maps. Non-trivial: a setter that is neither first nor last in the schedule, or a setter that also fails; distinct by case hash",
 		New:  func() interface{} { return &SchedCase{} },
 		Gen: func(t *rapid.T) interface{} {
 			c := &SchedCase{QuiesMs: 1}
